@@ -23,6 +23,11 @@ func Parse(in string) (sections []*Section, err error) {
 	parser.AddErrorListener(errorListener)
 	parser.BuildParseTrees = true
 	tree := parser.Start()
+	if errorListener.ErrorBuilder.Len() != 0 {
+		// Syntax error: do not walk the error-recovered tree, whose error nodes
+		// and missing children the walker's positional accesses cannot handle.
+		return nil, fmt.Errorf("%v", errorListener.ErrorBuilder.String())
+	}
 
 	walker := NewWalker(parser)
 	antlr.ParseTreeWalkerDefault.Walk(walker, tree)
